@@ -10,7 +10,10 @@
 //!         but only counted (the statement does not name it).
 //!
 //! States: setup (target in {directory, source, bundle} x sourcemap_target in {target, directory,
-//! none} x exclude_std) x damage set, where a damage is one of: edit a source (root or path
+//! none} x incremental in {false, true} x exclude_std) x damage set. The base snapshot of a setup is
+//! the whole sandbox after a real `veryl build`, `.build/` included, so with `incremental = true`
+//! both twins start from the warm fragment cache and build info that build left behind.
+//! A damage is one of: edit a source (root or path
 //! dependency) so its output is stale, add a source, delete / hand-edit / truncate an output
 //! (root, dependency, `$std`, bundle, the output of an empty source), delete / hand-edit a source
 //! map, delete / edit the filelist. All single damages, and all pairs (thorough).
@@ -27,23 +30,26 @@ pub struct Setup {
     pub target: u8, // 0 directory, 1 source, 2 bundle
     pub smap: u8,   // 0 target, 1 directory, 2 none
     pub std: bool,  // exclude_std = false
+    pub incr: bool, // [build] incremental = true (veryl's default is false: the key is then left out)
 }
 
 impl Setup {
     fn text(&self) -> String {
         format!(
-            "target={} sourcemap_target={} exclude_std={}",
+            "target={} sourcemap_target={} exclude_std={}{}",
             ["directory", "source", "bundle"][self.target as usize],
             ["target", "directory", "none"][self.smap as usize],
-            !self.std
+            !self.std,
+            if self.incr { " incremental=true" } else { "" }
         )
     }
     fn toml(&self) -> String {
         let t = [r#"{type = "directory", path = "target"}"#, r#"{type = "source"}"#, r#"{type = "bundle", path = "out/all.sv"}"#][self.target as usize];
         let m = [r#"{type = "target"}"#, r#"{type = "directory", path = "map"}"#, r#"{type = "none"}"#][self.smap as usize];
         format!(
-            "[project]\nname = \"prj\"\nversion = \"0.1.0\"\n\n[build]\nclock_type = \"posedge\"\nreset_type = \"async_low\"\nexclude_std = {}\nsources = [\"src\"]\ntarget = {t}\nsourcemap_target = {m}\nfilelist_type = \"relative\"\n\n[dependencies]\ndep = {{path = \"../d\"}}\n",
-            !self.std
+            "[project]\nname = \"prj\"\nversion = \"0.1.0\"\n\n[build]\nclock_type = \"posedge\"\nreset_type = \"async_low\"\nexclude_std = {}\nsources = [\"src\"]\ntarget = {t}\nsourcemap_target = {m}\nfilelist_type = \"relative\"\n{}\n[dependencies]\ndep = {{path = \"../d\"}}\n",
+            !self.std,
+            if self.incr { "incremental = true\n" } else { "" }
         )
     }
 }
@@ -155,7 +161,7 @@ fn damages(setup: Setup) -> Vec<Damage> {
         ];
     }
     let maps = setup.smap != 2;
-    let mut v = vec![Damage::SrcEdit("a"), Damage::OutRm("a")];
+    let mut v = vec![Damage::OutRm("a"), Damage::SrcEdit("a")];
     if maps {
         v.push(Damage::MapRm("a"));
     }
@@ -445,13 +451,16 @@ pub fn run(ctx: &Ctx) -> Report {
             if target == 2 && smap != 2 {
                 continue; // a bundle has no source maps
             }
-            setups.push(Setup { target, smap, std: false });
+            for incr in [false, true] {
+                setups.push(Setup { target, smap, std: false, incr });
+            }
         }
     }
-    setups.push(Setup { target: 0, smap: 0, std: true });
+    setups.push(Setup { target: 0, smap: 0, std: true, incr: false });
     if ctx.thorough() {
-        setups.push(Setup { target: 1, smap: 1, std: true });
-        setups.push(Setup { target: 2, smap: 2, std: true });
+        setups.push(Setup { target: 0, smap: 0, std: true, incr: true });
+        setups.push(Setup { target: 1, smap: 1, std: true, incr: false });
+        setups.push(Setup { target: 2, smap: 2, std: true, incr: false });
     }
     let built: Vec<Result<(Setup, Snap), String>> = super::projgen::par_in_order(&setups, |w, su| {
         let sb = &sandboxes[w];
@@ -487,6 +496,14 @@ pub fn run(ctx: &Ctx) -> Report {
         }
     }
 
+    // an `incremental = true` base must carry the fragment cache its build filled
+    for (su, snap) in &bases {
+        if su.incr && !snap.files.keys().any(|k| k.starts_with("p/.build/cache/")) {
+            rep.machinery(format!("vacuity guard: the base build of ({}) left no fragment cache under p/.build/cache", su.text()));
+            return rep;
+        }
+    }
+
     // ---- build states
     struct Task {
         setup: Setup,
@@ -504,7 +521,12 @@ pub fn run(ctx: &Ctx) -> Report {
     // run the same damage on every setup before the next damage: a budget cut then still leaves
     // every kind of state represented
     let dmg_rank = |t: &Task| -> usize { t.dmg.first().map(|d| damages(t.setup).iter().position(|x| x == d).unwrap_or(0) + 1).unwrap_or(0) };
-    tasks.sort_by_key(|t| (dmg_rank(t), t.base));
+    // the first damage runs before the undamaged states, so that even a run cut after a handful of
+    // states has seen a failing and a passing check
+    tasks.sort_by_key(|t| {
+        let r = dmg_rank(t);
+        (if r == 1 { 0 } else if r == 0 { 1 } else { r }, t.base)
+    });
     let singles = tasks.len();
     if ctx.thorough() {
         for (bi, (su, _)) in bases.iter().enumerate() {
@@ -614,6 +636,7 @@ pub fn run(ctx: &Ctx) -> Report {
         });
 
     // ---- collect
+    let incr_done = tasks.iter().zip(build_results.iter()).filter(|(t, r)| t.setup.incr && matches!(r, Some((_, sr)) if sr.skipped.is_none())).count();
     let mut evaluations = 0u64;
     let mut skipped = 0u64;
     let mut outcomes: BTreeMap<String, u64> = BTreeMap::new();
@@ -668,6 +691,7 @@ pub fn run(ctx: &Ctx) -> Report {
     rep.set("build_states_requested", tasks.len() as u64);
     rep.set("build_states_single_damage", singles as u64);
     rep.set("build_states_completed", done_build);
+    rep.set("build_states_completed_with_incremental_and_warm_cache", incr_done as u64);
     rep.set("fmt_states_requested", fmt_states.len() as u64);
     rep.set("fmt_states_completed", done_fmt);
     rep.set("setups", json!(setups.iter().map(|s| s.text()).collect::<Vec<_>>()));
